@@ -1,17 +1,188 @@
 (* C01/Model.v — signature policy of the SP acceptance path, as coded.
    Mirrors the control flow of Entity._parse_response (entity.py 1388-1524): two-pass forced
    signature check for the Response and for the assertions and the final either-or test;
-   SecurityContext.correctly_signed_response (sigver.py 1644-1671); AuthnResponse._assertion
-   (response.py 777-797) and decrypt_assertions (830-854); option defaults of
-   client_base.Base.__init__ (162-193; generated table C01Tables). *)
+   SecurityContext.correctly_signed_response (sigver.py 1644-1671); the choice of verification
+   keys in SecurityContext._check_signature (sigver.py 1391-1432: metadata certs of the issuer named
+   by the signed element, certificates of the message's own ds:KeyInfo only when there are none AND
+   only_use_keys_in_metadata is off, MissingKey when the list stays empty); AuthnResponse._assertion
+   (response.py 777-810, with the Response/assertion issuer comparison) and decrypt_assertions
+   (842-866); option defaults of client_base.Base.__init__ (162-193) and config.Config.__init__
+   (generated table C01Tables).
+
+   The SP is long-lived: it consumes a SEQUENCE of messages.  Nothing that one message leaves behind
+   (identity cache, temporary certificate files, the metadata store) is consulted by the signature
+   checks of a later one, so the model of a sequence is the map of the model of one message
+   (sp_run); the correspondence check runs real sequences on one Saml2Client to validate that. *)
 From Coq Require Import Bool List.
 From VerifGen Require Import C01Tables.
 Import ListNotations.
 
-Inductive sigst := Absent | Valid | Corrupt | Untrusted.
+(* ---- abstract inputs ------------------------------------------------------------------------ *)
+
+(* who made a signature: the keys of the harness federation (harness/fixtures.py) *)
+Inductive key := KIdp | KIdp2 | KIdpEnc | KOther | KSp | KAttacker.
+(* the Issuer an element names: the IdP, another federation member (both in the SP's metadata),
+   an entity the SP holds no metadata for, or no Issuer element at all *)
+Inductive who := WIdp | WOther | WUnknown | WNone.
+(* what ds:KeyInfo of a signature ships: nothing, the signer's certificate, or (decoy) the
+   certificate of the trusted IdP whoever signed *)
+Inductive kinfo := KiNone | KiSigner | KiIdp.
+Record sgn := { signer : key; ki : kinfo; corrupt : bool }.
+
 Inductive bind := POST | Redirect | SOAP | PAOS.
 (* a configured option value: not configured, a boolean, or the string "true" *)
 Inductive optv := Unset | B (b : bool) | StrTrue.
+
+Record config := {
+  c_wr : optv;      (* want_response_signed *)
+  c_wa : optv;      (* want_assertions_signed *)
+  c_wor : optv;     (* want_assertions_or_response_signed *)
+  c_only : optv     (* only_use_keys_in_metadata *)
+}.
+
+Record msg := {
+  r_who : who;          (* Issuer of the Response *)
+  a_who : who;          (* Issuer of the assertion *)
+  m_rs : option sgn;    (* signature of the Response *)
+  m_as : option sgn;    (* signature of the assertion *)
+  m_enc : bool;         (* assertion sent encrypted *)
+  m_bind : bind
+}.
+
+(* Base.__init__: val = config value if not None else default; "true" -> True.
+   Config.load: setattr when configured; `not "true"` is False, like True *)
+Definition resolve (v : optv) (default : bool) : bool :=
+  match v with Unset => default | B b => b | StrTrue => true end.
+
+(* ---- SecurityContext._check_signature ------------------------------------------------------------ *)
+
+Definition key_eqb (a b : key) : bool :=
+  match a, b with
+  | KIdp, KIdp | KIdp2, KIdp2 | KIdpEnc, KIdpEnc | KOther, KOther | KSp, KSp | KAttacker, KAttacker => true
+  | _, _ => false
+  end.
+
+(* self.metadata.certs(_issuer, "any", "signing") in the harness federation (harness/world.py:
+   the IdP publishes idp and idp2 for signing and idpenc for encryption only, the other member
+   publishes other without a use); KeyError (unknown entity / None) -> [] *)
+Definition md_certs (w : who) : list key :=
+  match w with WIdp => [KIdp; KIdp2] | WOther => [KOther] | WUnknown | WNone => [] end.
+
+(* cert_from_instance(item): the X509Certificate values of the signature's own KeyInfo *)
+Definition instance_certs (g : sgn) : list key :=
+  match ki g with KiNone => [] | KiSigner => [signer g] | KiIdp => [KIdp] end.
+
+Definition is_nil {A} (l : list A) : bool := match l with [] => true | _ => false end.
+
+(* xmlsec verify of one signature against one certificate *)
+Definition xmlsec_verify (g : sgn) (cert : key) : bool := key_eqb cert (signer g) && negb (corrupt g).
+
+(* result of one check: returns the item, raises MissingKey (a SigverError that is not a
+   SignatureError) or raises SignatureError *)
+Inductive vres := VOk | VMissingKey | VSigErr.
+
+Definition check_signature (only_md : bool) (issuer : who) (schema_ok : bool) (g : sgn) : vres :=
+  let certs := md_certs issuer in
+  let certs := if is_nil certs && negb only_md then instance_certs g else certs in
+  if is_nil certs then VMissingKey
+  else if negb schema_ok then VSigErr                        (* validate_doc_with_schema *)
+  else if existsb (xmlsec_verify g) certs then VOk else VSigErr.
+
+(* what the code finds when it looks at one element *)
+Inductive sres := SAbsent | SOk | SMissingKey | SSigErr.
+
+Definition look (only_md : bool) (issuer : who) (schema_ok : bool) (s : option sgn) : sres :=
+  match s with
+  | None => SAbsent
+  | Some g => match check_signature only_md issuer schema_ok g with
+              | VOk => SOk | VMissingKey => SMissingKey | VSigErr => SSigErr end
+  end.
+
+(* ---- the two passes ------------------------------------------------------------------------------- *)
+
+Inductive outcome := Done | SigverErr | SignatureErr | OtherErr.
+
+(* correctly_signed_response: a present signature is verified, an absent one is a SignatureError
+   iff require_response_signature *)
+Definition load_response (require_response_signature : bool) (r : sres) : outcome :=
+  match r with
+  | SOk => Done
+  | SMissingKey => SigverErr
+  | SSigErr => SignatureErr
+  | SAbsent => if require_response_signature then SignatureErr else Done
+  end.
+
+(* AuthnResponse.verify() -> parse_assertion -> _assertion for the single assertion, plain or
+   decrypted: a present signature is verified (for decrypted assertions in decrypt_assertions),
+   an absent one is a SignatureError iff require_signature; then the issuer comparison
+   (VerificationError) *)
+Definition verify_assertions (require_signature : bool) (a : sres) (issuers_match : bool) : outcome :=
+  match a with
+  | SMissingKey => SigverErr
+  | SSigErr => SignatureErr
+  | SAbsent => if require_signature then SignatureErr else if issuers_match then Done else OtherErr
+  | SOk => if issuers_match then Done else OtherErr
+  end.
+
+Definition is_done (o : outcome) : bool := match o with Done => true | _ => false end.
+
+Definition core (wr wa wor : bool) (r a : sres) (issuers_match : bool) (b : bind) : bool :=
+  match b with
+  | PAOS => false                                     (* unravel: UnknownBinding *)
+  | _ =>
+    (* pass 1: require_response_signature forced to True; `except SigverError` *)
+    let '(loaded, response_is_signed) :=
+      match load_response true r with
+      | Done => (true, true)
+      | OtherErr => (false, false)
+      | SigverErr | SignatureErr =>
+          if wr then (false, false) else (is_done (load_response wr r), false)
+      end in
+    if negb loaded then false else
+    (* pass 2: require_signature forced to True; `except SignatureError` only *)
+    let '(verified, assertions_are_signed) :=
+      match verify_assertions true a issuers_match with
+      | Done => (true, true)
+      | SignatureErr => if wa then (false, false) else (is_done (verify_assertions wa a issuers_match), false)
+      | SigverErr | OtherErr => (false, false)
+      end in
+    if negb verified then false else
+    if wor && negb response_is_signed && negb assertions_are_signed then false else true
+  end.
+
+Definition who_eqb (a b : who) : bool :=
+  match a, b with WIdp, WIdp | WOther, WOther | WUnknown, WUnknown | WNone, WNone => true | _, _ => false end.
+Definition has_issuer (w : who) : bool := match w with WNone => false | _ => true end.
+
+(* _assertion: `if _resp_issuer and _resp_issuer != _ass_issuer: raise` *)
+Definition issuers_match (m : msg) : bool := negb (has_issuer (r_who m)) || who_eqb (r_who m) (a_who m).
+
+(* the issuer whose keys are looked up for the assertion: its own Issuer; decrypt_assertions passes
+   the Response's Issuer as a fallback, _assertion passes none *)
+Definition a_issuer (m : msg) : who :=
+  match a_who m with WNone => if m_enc m then r_who m else WNone | w => w end.
+
+(* validate_doc_with_schema(str(item)): an Assertion without Issuer fails the schema, and so does
+   the Response around it unless the assertion travels as EncryptedAssertion *)
+Definition r_schema_ok (m : msg) : bool := m_enc m || has_issuer (a_who m).
+
+Definition parse_message (c : config) (m : msg) : bool :=
+  let wr := resolve (c_wr c) want_response_signed_default in
+  let wa := resolve (c_wa c) want_assertions_signed_default in
+  let wor := resolve (c_wor c) want_assertions_or_response_signed_default in
+  let only_md := resolve (c_only c) only_use_keys_in_metadata_default in
+  core wr wa wor
+       (look only_md (r_who m) (r_schema_ok m) (m_rs m))
+       (look only_md (a_issuer m) (has_issuer (a_who m)) (m_as m))
+       (issuers_match m) (m_bind m).
+
+(* a long-lived SP consuming a sequence of messages: identity (or not) per message *)
+Definition sp_run (c : config) (ms : list msg) : list bool := map (parse_message c) ms.
+
+(* ---- the single-message view of round 1 (C09 composes with it) ------------------------------------
+   The four signature states of the property text, for a Response and an assertion that both name
+   the IdP of the metadata, keys looked up in the metadata only: an instance of the above. *)
+Inductive sigst := Absent | Valid | Corrupt | Untrusted.
 
 Record input := {
   o_wr : optv;      (* want_response_signed *)
@@ -23,48 +194,16 @@ Record input := {
   binding : bind
 }.
 
-(* Base.__init__: val = config value if not None else default; "true" -> True *)
-Definition resolve (v : optv) (default : bool) : bool :=
-  match v with Unset => default | B b => b | StrTrue => true end.
-
-(* outcome of one signature verification attempt *)
-Definition verifies (s : sigst) : bool := match s with Valid => true | _ => false end.
-Definition present (s : sigst) : bool := match s with Absent => false | _ => true end.
-
-(* correctly_signed_response: None = SigverError raised *)
-Definition load_response (require_response_signature : bool) (s : sigst) : option unit :=
-  if present s then (if verifies s then Some tt else None)
-  else if require_response_signature then None else Some tt.
-
-(* AuthnResponse.verify() -> parse_assertion -> _assertion for the single assertion, plain or
-   decrypted: a present signature is verified (for decrypted assertions in decrypt_assertions),
-   an absent one is an error iff require_signature *)
-Definition verify_assertions (require_signature : bool) (s : sigst) : option unit :=
-  if present s then (if verifies s then Some tt else None)
-  else if require_signature then None else Some tt.
-
-Definition parse_response (x : input) : bool :=
-  let wr := resolve (o_wr x) want_response_signed_default in
-  let wa := resolve (o_wa x) want_assertions_signed_default in
-  let wor := resolve (o_wor x) want_assertions_or_response_signed_default in
-  match binding x with
-  | PAOS => false                                     (* unravel: UnknownBinding *)
-  | _ =>
-    (* pass 1: require_response_signature forced to True *)
-    let '(loaded, response_is_signed) :=
-      match load_response true (rs x) with
-      | Some _ => (true, true)
-      | None => if wr then (false, false)
-                else match load_response wr (rs x) with Some _ => (true, false) | None => (false, false) end
-      end in
-    if negb loaded then false else
-    (* pass 2: require_signature forced to True *)
-    let '(verified, assertions_are_signed) :=
-      match verify_assertions true (as_ x) with
-      | Some _ => (true, true)
-      | None => if wa then (false, false)
-                else match verify_assertions wa (as_ x) with Some _ => (true, false) | None => (false, false) end
-      end in
-    if negb verified then false else
-    if wor && negb response_is_signed && negb assertions_are_signed then false else true
+Definition sgn_of (s : sigst) : option sgn :=
+  match s with
+  | Absent => None
+  | Valid => Some {| signer := KIdp; ki := KiNone; corrupt := false |}
+  | Corrupt => Some {| signer := KIdp; ki := KiNone; corrupt := true |}
+  | Untrusted => Some {| signer := KAttacker; ki := KiNone; corrupt := false |}
   end.
+Definition config_of (x : input) : config :=
+  {| c_wr := o_wr x; c_wa := o_wa x; c_wor := o_wor x; c_only := Unset |}.
+Definition msg_of (x : input) : msg :=
+  {| r_who := WIdp; a_who := WIdp; m_rs := sgn_of (rs x); m_as := sgn_of (as_ x); m_enc := enc x; m_bind := binding x |}.
+
+Definition parse_response (x : input) : bool := parse_message (config_of x) (msg_of x).
